@@ -6,7 +6,7 @@
     beyond the pool, append through nil), and ObjectAt answers nil for a freed slot and beyond the pool. *)
 From Coq Require Import NArith List Bool.
 From FF Require Import Lib.GoOps Lib.GoPool Gen.Consts_aml_tree Gen.Trans_aml_tree Aml.Stream Aml.Tree Aml.TreeTrans
-                       Props.C13_trans.
+                       Props.C13_trans Props.C13_trans_find.
 Import ListNotations.
 Local Open Scope N_scope.
 
@@ -121,8 +121,8 @@ Example C13_trans_run_queries :
   ClosestNamedAncestor ex_tree (Some 4) = Ok 3.
 Proof. vm_compute. repeat split. Qed.
 
-(** Find / findRelative are translated as well (nested labelled loops over the []byte expression; no equality theorem
-    yet: the model recurses on the expression as a list, the Go code runs indices).  On the example tree
+(** Find / findRelative (nested labelled loops over the []byte expression; equality theorems in Props/C13_trans_find.v,
+    instantiated at the end of this file).  On the example tree
     ( \ -> _SB_ -> PCI0 -> [IDE0 -> [_ADR], _CRS] ) the translation, run by vm_compute, returns exactly what the
     model's Find returns for absolute, ^-prefixed, single-segment (search upwards), multi-segment, dual / multi name
     prefix, too short, empty and stray-byte expressions, and panics where the model panics (a scope beyond the pool). *)
@@ -157,3 +157,24 @@ Example C13_trans_run_findRelative_agrees :
                       | GOk (_, r) => Ok r | GPanic => Panic | GFuel => OutOfFuel end) ex_lookups =
   map (fun '(s, e) => findRelative ex_tree s e) ex_lookups.
 Proof. vm_compute. reflexivity. Qed.
+
+(** the hypotheses of C13_find_is_translation / C13_findRelative_is_translation hold for every lookup of the list above on
+    the example tree with fuel 64 (pool of 7 objects: chain_fuel = 8), and the theorems give the runs above *)
+Example C13_trans_find_hypotheses_nonvacuous :
+  Forall (fun '(s, e) => N.of_nat (length e) < 2 ^ 62 /\ (length e + 5 < 64)%nat /\ (chain_fuel ex_tree <= 64)%nat /\
+                         Find ex_tree s e <> OutOfFuel /\ findRelative ex_tree s e <> OutOfFuel) ex_lookups.
+Proof. repeat constructor; vm_compute; congruence. Qed.
+
+Example C13_trans_find_at_example :
+  go_aml_ObjectTree_Find 64 (tr_tree ex_tree) 4 [0x5f;0x43;0x52;0x53] = GOk (tr_tree ex_tree, 5).
+Proof.
+  rewrite (C13_find_is_translation N ex_tree 4 [0x5f;0x43;0x52;0x53] 64);
+    [ reflexivity | reflexivity | vm_compute; repeat constructor | vm_compute; repeat constructor | vm_compute; discriminate ].
+Qed.
+
+Example C13_trans_findRelative_at_example :
+  go_aml_ObjectTree_findRelative 64 (tr_tree ex_tree) 1 [0x2f; 0x02; 0x50;0x43;0x49;0x30; 0x49;0x44;0x45;0x30] = GOk (tr_tree ex_tree, 3).
+Proof.
+  rewrite (C13_findRelative_is_translation N ex_tree 1 [0x2f; 0x02; 0x50;0x43;0x49;0x30; 0x49;0x44;0x45;0x30] 64);
+    [ reflexivity | reflexivity | vm_compute; repeat constructor | vm_compute; repeat constructor | vm_compute; discriminate ].
+Qed.
